@@ -27,9 +27,10 @@ LEVEL = "exploration"
 RULE = (
     "Hypothesis-generated valid inputs of 1-3 assets with year-scale gaps (sparse, non-consecutive years), tables permuted "
     "and rows shuffled so that years are first met in different order in the IN/OUT/INTRA tables, disposal-only and "
-    "transfer-only years (flavours disposal_years / transfer_heavy / fully_sold / mixed), -g en and -g kl and the default "
+    "transfer-only years, entries of different time zones within an hour of New Year whose own years read Y, Y-1, Y along the "
+    "time axis (flavours disposal_years / transfer_heavy / fully_sold / sparse_years / new_year_offsets / mixed), -g en and -g kl and the default "
     "language, no window or to-date only; one real rp2_jp run per case; tax_report_jp.ods read back. Non-trivial = an asset "
-    "whose years are not consecutive, or whose years are first met out of order across the three tables; distinct by hash."
+    "whose years are not consecutive, or whose years are first met out of order across the three tables or are not in instant order; distinct by hash."
 )
 ASSUMPTIONS = [
     "yen = amount x spot price (exchange-supplied fiat columns are not generated for C20); for DONATE rows only the sold amount is compared (the yen cell is formatted text by design)",
@@ -37,7 +38,7 @@ ASSUMPTIONS = [
 ]
 
 HIST = gen.GenCfg(min_steps=3, max_steps=10, max_exchanges=2, max_holders=1, long_gaps=True, tie_prob=0.15, bulk_prob=0.08, fiat_only_out_fee=True)
-FLAVOURS = ("mixed", "mixed", "disposal_years", "transfer_heavy", "fully_sold", "sparse_years", "sparse_years")
+FLAVOURS = ("mixed", "mixed", "disposal_years", "transfer_heavy", "fully_sold", "sparse_years", "sparse_years", "new_year_offsets")
 FIRST_ROW = 21  # 0-based index of spreadsheet row 22
 REL = Fraction(1, 10**12)
 
@@ -129,7 +130,7 @@ def evaluate(case: Dict[str, Any]) -> Outcome:
             out.fail("jp_report_not_written", f"rp2_jp exited 0 but {os.path.basename(path)} is not in the output directory ({result.files})")
             return out
         sheets = files.read_ods(path)
-        names = list(sheets)
+        names = list(getattr(sheets, "all_names", sheets))
         # ---- expected sheets
         per_asset_years: Dict[str, Dict[int, List[model.Tx]]] = {}
         for asset, rows in rows_model.items():
@@ -157,6 +158,10 @@ def evaluate(case: Dict[str, Any]) -> Outcome:
             if first_seen != sorted(first_seen):
                 out.nontrivial = True
                 out.classes.add("years_first_met_out_of_order")
+            by_instant = [x.year for x in sorted((x for ys in years.values() for x in ys), key=lambda x: x.us)]
+            if by_instant != sorted(by_instant):
+                out.nontrivial = True
+                out.classes.add("own_years_not_in_instant_order")
             if any(all(x.table != "in" for x in ys) for ys in years.values()):
                 out.classes.add("year_without_acquisition")
         # ---- per asset-year sheet
